@@ -152,6 +152,10 @@ def exporter_scenarios(rng, tier, comps=("none", "gz", "xz"), kinds=("file", "fd
         (10000, [{"op": "rec", "n": 2}, {"op": "wb"}, {"op": "rec", "n": 120}, {"op": "rot", "export": True}, {"op": "rec", "n": 90},
                  {"op": "wb"}]),
     ]
+    # records whose strings are larger than the staging buffer (a path of their own in an encoder that hands large
+    # strings to the output directly)
+    big.append((10000, [{"op": "rec", "n": 12, "big": 4}, {"op": "wb"}, {"op": "rec", "n": 5, "big": 2}, {"op": "rot", "export": True},
+                        {"op": "rec", "n": 3, "big": 1}, {"op": "wb"}]))
     if tier == "thorough":
         big += [(10000, [{"op": "rec", "n": 600}, {"op": "wb"}, {"op": "rot", "export": False}, {"op": "rec", "n": 200}, {"op": "wb"}]),
                 (64, [{"op": "rec", "n": 400}, {"op": "rot", "export": True}, {"op": "rec", "n": 70}, {"op": "wb"}])]
